@@ -3,7 +3,7 @@
 checks so that the claimed level, technique and notes are edited in one place)."""
 import json, subprocess, os
 
-HOOK_COMMITS = ["beaccff", "1de206f", "b856256"]
+HOOK_COMMITS = ["beaccff", "1de206f", "b856256", "ead1da9", "78f565b"]
 
 CHECKS = {
  "C13": dict(
@@ -62,6 +62,55 @@ CHECKS = {
   design_ref="DESIGN.md §4 C20",
   note="Not covered: the Mutex/Condvar/timeout protocol of the display thread (not modelled by loom); the consequence of a render panic for the build is argued from the code (the helpers are the only fallible code on that thread).",
   technique="bounded exhaustive input enumeration with invariant oracle",
+ ),
+
+ "C01": dict(
+  engine="sched",
+  category="model_checking",
+  text="Stateless model checking of the real scheduler: the real run::build / Work::run / task::Runner run in-process with real task threads whose innermost run_command is a gate; at every Runner::wait the explorer decides which running command finishes next (and, where n2 iterates a HashSet, in which order newly ready dependents are visited) and the whole choice tree of every scenario is walked by re-execution. Scenarios: all 3-step graphs over all five edge options with a multi-output producer, optional phony step, both statement orders, -j 1..3; prebuilt trees with every edit vector and restat-like commands; every fail subset x -k x failure kind; curated diamond / multi-output / fan-in / restat-in-pool shapes; manifests regenerated by a generator step (thorough adds 4-step graphs and pools). The C01 monitor checks on every trace that at each command start every transitive ordering predecessor has finished successfully or never runs in that phase, that no command starts twice in a phase, and that n2 never blocks while a step whose ordering predecessors are done could start (so validation and discovered edges impose no ordering).",
+  design_ref="DESIGN.md §3.1, §4 C01",
+  note="Assumes scripted commands (effects limited to their outputs, logical mtimes) and cooperative hand-offs between threads: one thread runs at a time, so only completion orders are explored, not preemptions inside n2's own code (Runner's channel protocol is straight-line).",
+  technique="stateless exhaustive exploration of completion orders of the real implementation under a controlled (gated) executor, trace monitor against the abstract graph",
+ ),
+ "C04": dict(
+  engine="sched",
+  category="model_checking",
+  text="Same explorer as C01 on pool-centred scenario families: every assignment of {default, depth-1, depth-2, depth-0, console, undeclared} pools to 3 (thorough 4) steps over three shapes x -j x <=1 failing step, prebuilt pooled graphs under every edit vector with restat-like commands, regenerated manifests that change pool depths or add pools. At every command start the harness's own running set (from start/finish events, independent of n2's counters) must have at most -j members and at most depth members per bounded pool; n2's own running count seen at Runner::wait must equal it; a dirty step naming an undeclared pool must produce an `unknown pool` error and never start.",
+  design_ref="DESIGN.md §4 C04",
+  note="Same trusted base as C01. Real thread interleavings of Runner's accounting are not explored (loomrun was not built, see DESIGN.md).",
+  technique="stateless exhaustive exploration of completion orders under a gated executor, invariant checked at every start",
+ ),
+ "C05": dict(
+  engine="sched",
+  category="model_checking",
+  text="Same explorer on failure families: every non-empty fail subset of 3-step graphs (thorough: all edge kinds, 4-step graphs) x -k in {none,1,2,3} x {fail, fail after writing outputs, interrupt} x -j 1..3, every completion order, plus pools and curated shapes with one failing step. Monitors: no start downstream of a failed or interrupted step; no start after the k-th failure or after an interruption; below the budget every wanted step not downstream of a failure is up to date at the end (reference model on the harness's own file table); result is success iff no command failed; and a follow-up all-success invocation must run every failed step again (it was not recorded).",
+  design_ref="DESIGN.md §4 C05",
+  note="`no -k` is treated as an unlimited budget (what n2 does; --help claims default 1, see DESIGN.md O1). Exit status mapping of the binary itself is checked under C16/C18 (proc).",
+  technique="stateless exhaustive exploration of completion orders and failure subsets under a gated executor, trace monitors plus reference model",
+ ),
+ "C06": dict(
+  engine="sched",
+  category="model_checking",
+  text="Same explorer over all families plus the cycle family: every 2- and 3-step graph with a back edge of each kind (incl. self edges) and each target, validation-closed cycles entered from every side. Every execution has a horizon; a panic (e.g. `BUG: no work to do and runner not running`), a Runner::wait with nothing running, or an exceeded horizon is a violation, a worker abort or hang is attributed to the scenario. With no failing command the result must be success and every wanted step up to date per the reference model; a cycle of ordering edges among the wanted steps must be reported as `dependency cycle: a -> ... -> a` naming a real cycle with zero commands started; a cycle closed only by a validation edge must be accepted.",
+  design_ref="DESIGN.md §4 C06",
+  note="Termination is decided per execution within the horizon (waits <= 200) and the worker watchdog; livelock without waits shows up as a watchdog kill attributed to the scenario.",
+  technique="stateless exhaustive exploration of completion orders under a gated executor, termination/decision monitors",
+ ),
+ "C18": dict(
+  engine="sched",
+  category="model_checking",
+  text="Same explorer on the target family: 3-step graphs x every target subset x three spellings x {no default, one, two defaults}, names that occur nowhere / only as a source, and regenerated manifests in which a target exists only in the old or only in the new text. Monitors: every started step belongs to the reference closure (explicit, implicit, order-only and validation edges from the named targets, else defaults, else all outputs) of the manifest in effect; every dirty step of the closure is up to date after a successful invocation; a name occurring nowhere in the manifest in effect yields `unknown path requested` with no command started after the regeneration phase.",
+  design_ref="DESIGN.md §4 C18",
+  note="-C / -f / builddir combinations run through the real binary in the proc engine (separate jobs of this check once built).",
+  technique="stateless exhaustive exploration under a gated executor, closure monitor against the abstract graph",
+ ),
+ "C19": dict(
+  engine="sched",
+  category="model_checking",
+  text="Same explorer with n2's Progress replaced by a recorder: at every Progress::update the state counts and the display's own total are compared with ground truth from the executor: total = number of non-phony steps of the reference wanted set of the phase (and = sum of the per-state counts), running = commands actually in flight, failed = failures so far, done/failed never decrease, done >= successes; task_started/task_finished pair up; the final `ran N` equals the number of successfully completed commands over both phases.",
+  design_ref="DESIGN.md §4 C19",
+  note="The rendered text of the summary line is checked on the real binary by the proc jobs (once built).",
+  technique="stateless exhaustive exploration under a gated executor, counters compared with executor ground truth at every update",
  ),
 }
 
